@@ -275,6 +275,30 @@ impl Node {
     ) -> Vec<(NetworkAddress, Vec<Multiaddr>)> {
         Self::calculate_get_closest_peers(peer_addrs, target, num_of_peers, range)
     }
+
+    pub(crate) async fn verif_storage_challenge(network: Network) {
+        Self::storage_challenge(network).await
+    }
+
+    pub(crate) async fn verif_respond_x_closest_record_proof(
+        network: &Network,
+        key: NetworkAddress,
+        nonce: Nonce,
+        difficulty: usize,
+        chunk_only: bool,
+    ) -> Vec<(NetworkAddress, Result<ChunkProof, ProtocolError>)> {
+        Self::respond_x_closest_record_proof(network, key, nonce, difficulty, chunk_only).await
+    }
+}
+
+/// Conformance-harness pass-through to the scoring of one challenged peer.
+#[cfg(maidsafe_safe_network_verif)]
+pub(crate) fn verif_mark_peer(
+    duration: Duration,
+    answers: Vec<(NetworkAddress, ChunkProof)>,
+    expected_proofs: &HashMap<NetworkAddress, ChunkProof>,
+) -> usize {
+    mark_peer(duration, answers, expected_proofs)
 }
 
 impl Node {
